@@ -3,6 +3,7 @@ import NanoVerif.Proofs.TensorRemoveIf
 import NanoVerif.Proofs.TensorIntegral
 import NanoVerif.Proofs.TensorReshape
 import NanoVerif.Proofs.TensorStack
+import NanoVerif.Proofs.TensorView
 /-!
   C16 — property theorems about the tensor addressing model (`Model/Tensor.lean`).
   Core Lean only. Helper lemmas live in this file only when they are part of the statement chain;
@@ -723,6 +724,429 @@ example : stackVec 5 [[1, 2], [], [3, 4, 5]] = some [1, 2, 3, 4, 5] ∧ stackVec
 -- refused: the last block does not end at the bottom-right corner
 example : stackMat (0 : Int) 3 3 [⟨2, 2, [1, 2, 3, 4]⟩, ⟨2, 1, [5, 6]⟩] = none := by decide
 
+/-! ### non-owning tensors: what a view aliases, assignments of views, writes through views -/
+
+/-- **a view aliases exactly the elements obtained by full indexing**: element `idx` of a non-owning tensor is the
+    buffer element at `off + index dims idx` — below `off + size dims`, i.e. inside the viewed range -/
+theorem view_get {α} (buf : List α) (v : View) (idx : List Nat) (hv : Valid v.dims idx) :
+    (assignView buf v).get? idx = buf[v.off + index v.dims idx]? ∧ v.off + index v.dims idx < v.off + size v.dims := by
+  have hlt := index_lt_size _ _ hv
+  refine ⟨?_, by omega⟩
+  simp only [assignView, View.read, T.get?, hv, if_true]
+  rw [List.getElem?_take, if_pos hlt, List.getElem?_drop]
+
+/-- for the owning tensor itself (`data()`, `tensor()`, the conversions to a map / constant map): the view of the whole
+    buffer reads what full indexing reads — converting between the three storages changes no element -/
+theorem owner_view_get {α} (t : T α) (idx : List Nat) (hv : Valid t.dims idx) :
+    (assignView t.data t.view).get? idx = t.get? idx := by
+  rw [(view_get t.data t.view idx hv).1]
+  simp [T.view, T.get?, hv]
+
+/-- owning → map → owning is the identity on well-formed tensors -/
+theorem assign_full_view {α} (t : T α) (hwf : t.wf) : assignView t.data t.view = t := by
+  unfold T.wf at hwf
+  cases t with
+  | mk dims data =>
+    simp only [assignView, View.read, T.view, List.drop_zero] at *
+    rw [List.take_of_length_le (Nat.le_of_eq hwf)]
+
+/-- a view inside the buffer is copied to a well-formed tensor with the view's dims -/
+theorem assign_wf {α} (buf : List α) (v : View) (hb : v.InBounds buf.length) :
+    (assignView buf v).wf ∧ (assignView buf v).dims = v.dims := by
+  unfold View.InBounds at hb
+  refine ⟨?_, rfl⟩
+  simp only [T.wf, assignView, View.read, List.length_take, List.length_drop]
+  omega
+
+/-- partial-index views of ANY storage stay inside the tensor they are taken from (hence inside the buffer) -/
+theorem view_sub_in_bounds (v w : View) (p : List Nat) (hs : v.sub p = some w) :
+    v.off ≤ w.off ∧ w.off + size w.dims ≤ v.off + size v.dims := by
+  unfold View.sub at hs
+  split at hs
+  · rename_i hp
+    cases hs
+    have := subview_in_bounds v.dims p hp
+    simp only
+    omega
+  · cases hs
+
+theorem view_slice_in_bounds (v w : View) (b e : Nat) (hs : v.slice b e = some w) :
+    v.off ≤ w.off ∧ w.off + size w.dims ≤ v.off + size v.dims := by
+  unfold View.slice at hs
+  split at hs
+  · cases hs
+  · rename_i d ds hd
+    split at hs
+    · rename_i hbe
+      cases hs
+      have := slice_in_bounds d ds b e hbe
+      rw [hd]
+      simp only
+      omega
+    · cases hs
+
+theorem view_reshape_in_bounds (v w : View) (sizes : List Int) (hs : v.reshape sizes = some w) :
+    w.off = v.off ∧ size w.dims = size v.dims := by
+  unfold View.reshape at hs
+  cases hr : reshapeDims (size v.dims) sizes with
+  | none => simp [hr] at hs
+  | some ds =>
+    simp [hr] at hs
+    cases hs
+    exact ⟨rfl, reshape_size _ _ _ hr⟩
+
+/-- element `q` of `x.tensor(p…)` (also `vector` / `array` / `matrix`: same pointer, same elements) is element `p ++ q`
+    of `x`, for `x` of any storage — in particular for a view of a view -/
+theorem view_sub_elem {α} (buf : List α) (v w : View) (p q : List Nat) (hs : v.sub p = some w)
+    (hq : Valid w.dims q) : (assignView buf w).get? q = (assignView buf v).get? (p ++ q) := by
+  unfold View.sub at hs
+  split at hs
+  · rename_i hp
+    cases hs
+    simp only at hq
+    have hv := valid_split v.dims p q hp hq
+    rw [(view_get buf _ q hq).1, (view_get buf v (p ++ q) hv).1, index_append v.dims p q hp]
+    simp only [Nat.add_assoc]
+  · cases hs
+
+/-- element `(i, q…)` of `x.slice(b, e)` is element `(b + i, q…)` of `x`, for `x` of any storage -/
+theorem view_slice_elem {α} (buf : List α) (v w : View) (b e i : Nat) (q : List Nat) (hs : v.slice b e = some w)
+    (hq : Valid w.dims (i :: q)) : (assignView buf w).get? (i :: q) = (assignView buf v).get? ((b + i) :: q) := by
+  unfold View.slice at hs
+  split at hs
+  · cases hs
+  · rename_i d ds hd
+    split at hs
+    · rename_i hbe
+      cases hs
+      simp only at hq
+      have hi : i < e - b := hq.1
+      have hv : Valid v.dims ((b + i) :: q) := by rw [hd]; exact ⟨by omega, hq.2⟩
+      rw [(view_get buf _ _ hq).1, (view_get buf v _ hv).1, hd]
+      simp only [index, Nat.add_zero]
+      congr 1
+      rw [Nat.add_mul]; omega
+    · cases hs
+
+/-- element `idx` of `x.reshape(sizes…)` is the `index newdims idx`-th element of `x` in row-major order, below `size` -/
+theorem view_reshape_elem {α} (buf : List α) (v w : View) (sizes : List Int) (hs : v.reshape sizes = some w)
+    (idx : List Nat) (hv : Valid w.dims idx) :
+    (assignView buf w).get? idx = buf[v.off + index w.dims idx]? ∧ index w.dims idx < size v.dims := by
+  obtain ⟨ho, hsz⟩ := view_reshape_in_bounds v w sizes hs
+  have hlt := index_lt_size _ _ hv
+  rw [(view_get buf w idx hv).1, ho]
+  exact ⟨rfl, by omega⟩
+
+/-- **`t = t.slice(b, e)`** (and `other = t.slice(b, e)`, from the owning tensor, its const form, a map or a constant map
+    of it): element `(i, q…)` of the assigned tensor is element `(b + i, q…)` of `t` AS IT WAS BEFORE the assignment;
+    the assigned tensor has the slice's dims and is well-formed -/
+theorem assign_slice_elem {α} (t : T α) (hwf : t.wf) (b e : Nat) (w : View) (hs : t.view.slice b e = some w) :
+    (assignView t.data w).dims = (e - b) :: t.dims.drop 1 ∧ (assignView t.data w).wf ∧
+    ∀ i q, Valid w.dims (i :: q) → (assignView t.data w).get? (i :: q) = t.get? ((b + i) :: q) := by
+  have hb := view_slice_in_bounds _ _ _ _ hs
+  refine ⟨?_, (assign_wf t.data w (by unfold View.InBounds T.wf at *; simp only [T.view] at hb; omega)).1, ?_⟩
+  · unfold View.slice at hs
+    split at hs
+    · cases hs
+    · rename_i d ds hd
+      split at hs
+      · cases hs
+        simp only [T.view] at hd
+        simp [assignView, hd]
+      · cases hs
+  · intro i q hq
+    have hi : b + i < (t.dims.headD 0) ∧ Valid (t.dims.drop 1) q := by
+      unfold View.slice at hs
+      split at hs
+      · cases hs
+      · rename_i d ds hd
+        split at hs
+        · rename_i hbe
+          cases hs
+          simp only [T.view] at hd
+          have h1 : i < e - b := hq.1
+          rw [hd]
+          exact ⟨by simp; omega, by simpa using hq.2⟩
+        · cases hs
+    have hv : Valid t.dims ((b + i) :: q) := by
+      cases hd : t.dims with
+      | nil => simp [hd] at hi
+      | cons d ds => simp only [hd, List.headD_cons, List.drop_succ_cons, List.drop_zero] at hi; exact hi
+    rw [view_slice_elem t.data t.view w b e i q hs hq, owner_view_get t _ hv]
+
+/-- **`x = t.tensor(p…)`**: element `q` of the assigned tensor is element `p ++ q` of `t` as it was before -/
+theorem assign_sub_elem {α} (t : T α) (hwf : t.wf) (p : List Nat) (w : View) (hs : t.view.sub p = some w) :
+    (assignView t.data w).dims = t.dims.drop p.length ∧ (assignView t.data w).wf ∧
+    ∀ q, Valid w.dims q → (assignView t.data w).get? q = t.get? (p ++ q) := by
+  have hb := view_sub_in_bounds _ _ _ hs
+  refine ⟨?_, (assign_wf t.data w (by unfold View.InBounds T.wf at *; simp only [T.view] at hb; omega)).1, ?_⟩
+  · unfold View.sub at hs
+    split at hs
+    · cases hs; rfl
+    · cases hs
+  · intro q hq
+    have hv : Valid t.dims (p ++ q) := by
+      unfold View.sub at hs
+      split at hs
+      · rename_i hp
+        cases hs
+        exact valid_split t.dims p q hp hq
+      · cases hs
+    rw [view_sub_elem t.data t.view w p q hs hq, owner_view_get t _ hv]
+
+/-- **`t = t.reshape(sizes…)`**: the assigned tensor has the reshaped dims, as many elements as `t`, and its
+    elements are those of `t` (as it was before) in row-major order -/
+theorem assign_reshape_elem {α} (t : T α) (hwf : t.wf) (sizes : List Int) (w : View)
+    (hs : t.view.reshape sizes = some w) :
+    size (assignView t.data w).dims = size t.dims ∧ (assignView t.data w).data = t.data := by
+  obtain ⟨ho, hsz⟩ := view_reshape_in_bounds _ _ _ hs
+  unfold T.wf at hwf
+  simp only [T.view] at ho hsz
+  refine ⟨hsz, ?_⟩
+  simp only [assignView, View.read, ho, List.drop_zero, hsz]
+  rw [List.take_of_length_le (Nat.le_of_eq hwf)]
+
+/-- **writes through a view change exactly the aliased offsets** (buffer level, any view): the buffer keeps its
+    size, the `j`-th element of the view receives `vals[j]`, every offset outside `[off, off + size)` keeps its value -/
+theorem write_through_view_frame {α} (v : View) (buf vals buf' : List α) (h : v.write buf vals = some buf') :
+    buf'.length = buf.length ∧
+    (∀ j, j < size v.dims → buf'[v.off + j]? = vals[j]?) ∧
+    (∀ o, (o < v.off ∨ v.off + size v.dims ≤ o) → buf'[o]? = buf[o]?) := by
+  unfold View.write at h
+  split at h
+  · rename_i hg
+    obtain ⟨hl, hb⟩ := hg
+    cases h
+    refine ⟨splice_length _ _ _ (by omega), ?_, ?_⟩
+    · intro j hj
+      exact splice_get_inside _ _ _ (by omega) j (by omega)
+    · rintro o (ho | ho)
+      · exact splice_get_before _ _ _ (by omega) o ho
+      · exact splice_get_after _ _ _ (by omega) o (by omega)
+  · cases h
+
+theorem valid_drop : ∀ (dims idx : List Nat) (k : Nat), Valid dims idx → Valid (dims.drop k) (idx.drop k)
+  | dims, idx, 0, h => by simpa using h
+  | [], [], _ + 1, _ => by simp [Valid]
+  | [], _ :: _, _, h => by simp [Valid] at h
+  | _ :: _, [], _, h => by simp [Valid] at h
+  | _ :: ds, _ :: is, k + 1, h => by
+    simp only [List.drop_succ_cons]
+    exact valid_drop ds is k h.2
+
+/-- a valid index tuple that does not start with the prefix `p` addresses an element outside the range
+    `[offset0(p), offset0(p) + size(dims0(p)))` -/
+theorem index_outside_subview : ∀ (dims p idx : List Nat), ValidPrefix dims p → Valid dims idx →
+    idx.take p.length ≠ p →
+    index dims idx < index dims p ∨ index dims p + size (dims0 dims p.length) ≤ index dims idx
+  | _, [], _, _, _, h => by simp at h
+  | [], _ :: _, _, hp, _, _ => by simp [ValidPrefix] at hp
+  | _ :: _, _ :: _, [], _, hv, _ => by simp [Valid] at hv
+  | d :: ds, i :: is, j :: js, hp, hv, h => by
+    have hjs := index_lt_size ds js hv.2
+    have hsub := size_drop_le ds is hp.2
+    simp only [index, dims0, List.length_cons, List.drop_succ_cons] at *
+    rcases Nat.lt_trichotomy j i with hji | hji | hji
+    · left
+      have : (j + 1) * size ds ≤ i * size ds := Nat.mul_le_mul_right _ hji
+      rw [Nat.add_mul, Nat.one_mul] at this
+      omega
+    · subst hji
+      have h' : js.take is.length ≠ is := by
+        intro e
+        apply h
+        simp [List.take_succ_cons, e]
+      rcases index_outside_subview ds is js hp.2 hv.2 h' with r | r
+      · left; omega
+      · right; simp only [dims0] at r; omega
+    · right
+      have : (i + 1) * size ds ≤ j * size ds := Nat.mul_le_mul_right _ hji
+      rw [Nat.add_mul, Nat.one_mul] at this
+      omega
+
+/-- **index level, partial-index view**: after writing `vals` through `t.tensor(p…)` (`vector` / `array` / `matrix`
+    alike), the element at a valid tuple `idx` is `vals[index within the view]` when `idx` starts with `p` and is
+    unchanged otherwise; the dims are unchanged -/
+theorem write_sub_get {α} (t : T α) (p : List Nat) (w : View) (vals buf' : List α)
+    (hs : t.view.sub p = some w) (hw : w.write t.data vals = some buf') (idx : List Nat) (hv : Valid t.dims idx) :
+    (⟨t.dims, buf'⟩ : T α).get? idx =
+      if idx.take p.length = p then vals[index w.dims (idx.drop p.length)]? else t.get? idx := by
+  obtain ⟨_, hin, hout⟩ := write_through_view_frame w t.data vals buf' hw
+  unfold View.sub at hs
+  split at hs
+  · rename_i hp
+    cases hs
+    simp only [T.view, Nat.zero_add] at *
+    simp only [T.get?, hv, if_true]
+    split
+    · rename_i htake
+      have e : p ++ idx.drop p.length = idx := by
+        calc p ++ idx.drop p.length = idx.take p.length ++ idx.drop p.length := by rw [htake]
+          _ = idx := List.take_append_drop _ _
+      have hvd : Valid (dims0 t.dims p.length) (idx.drop p.length) := valid_drop t.dims idx p.length hv
+      have hi := index_append t.dims p (idx.drop p.length) hp
+      rw [e] at hi
+      rw [hi]
+      exact hin _ (index_lt_size _ _ hvd)
+    · rename_i htake
+      exact hout _ (index_outside_subview t.dims p idx hp hv htake)
+  · cases hs
+
+/-- **index level, first-axis slice**: after writing `vals` through `t.slice(b, e)`, element `(i, q…)` is
+    `vals[index within the slice of (i - b, q…)]` when `b ≤ i < e` and is unchanged otherwise -/
+theorem write_slice_get {α} (t : T α) (b e : Nat) (w : View) (vals buf' : List α)
+    (hs : t.view.slice b e = some w) (hw : w.write t.data vals = some buf') (i : Nat) (q : List Nat)
+    (hv : Valid t.dims (i :: q)) :
+    (⟨t.dims, buf'⟩ : T α).get? (i :: q) =
+      if b ≤ i ∧ i < e then vals[index w.dims ((i - b) :: q)]? else t.get? (i :: q) := by
+  obtain ⟨_, hin, hout⟩ := write_through_view_frame w t.data vals buf' hw
+  unfold View.slice at hs
+  split at hs
+  · cases hs
+  · rename_i d ds hd
+    split at hs
+    · rename_i hbe
+      cases hs
+      simp only [T.view] at hd
+      simp only [T.view, Nat.zero_add, index, Nat.add_zero, size] at hin hout
+      rw [hd] at hv
+      have hq := index_lt_size ds q hv.2
+      simp only [T.get?, hd, hv, if_true, index]
+      split
+      · rename_i hie
+        have h1 : b * size ds + (i - b) * size ds = i * size ds := by
+          rw [← Nat.add_mul]; congr 1; omega
+        have h2 : (i - b) * size ds + size ds ≤ (e - b) * size ds := by
+          calc (i - b) * size ds + size ds = (i - b + 1) * size ds := by rw [Nat.add_mul, Nat.one_mul]
+            _ ≤ (e - b) * size ds := Nat.mul_le_mul_right _ (by omega)
+        have := hin ((i - b) * size ds + index ds q) (by omega)
+        rw [← this]
+        congr 1
+        omega
+      · rename_i hie
+        apply hout
+        rcases Nat.lt_or_ge i b with hib | hib
+        · left
+          have : (i + 1) * size ds ≤ b * size ds := Nat.mul_le_mul_right _ hib
+          rw [Nat.add_mul, Nat.one_mul] at this
+          omega
+        · right
+          have hei : e ≤ i := by omega
+          have h1 : b * size ds + (e - b) * size ds = e * size ds := by
+            rw [← Nat.add_mul]; congr 1; omega
+          have : e * size ds ≤ i * size ds := Nat.mul_le_mul_right _ hei
+          omega
+    · cases hs
+
+/-! ### gathers into a provided output -/
+
+/-- the overload writing into mapped memory of the right shape copies what `indexed(indices)` returns, whatever the
+    memory held -/
+theorem gather_into_map_eq_gather {α} (t out : T α) (I : List Nat) (hwf : t.wf) (hout : out.wf) :
+    t.gatherIntoMap I out = if out.dims = I.length :: t.dims.drop 1 then t.gather I else none := by
+  unfold T.gatherIntoMap T.gather
+  cases hd : t.dims with
+  | nil => simp
+  | cons d ds =>
+    simp only [List.drop_succ_cons, List.drop_zero]
+    by_cases hall : I.all (· < d) = true
+    · by_cases ho : out.dims = I.length :: ds
+      · simp only [hall, ho, and_self, if_true]
+        unfold T.wf at hwf hout
+        rw [hd] at hwf
+        rw [ho] at hout
+        simp only [size] at hwf hout
+        have hrow : ∀ i ∈ I, ((t.data.drop (i * size ds)).take (size ds)).length = size ds := by
+          intro i hi
+          have hid : i < d := by
+            have := List.all_eq_true.mp hall i hi
+            simpa using this
+          exact row_length t.data d (size ds) i hwf hid
+        rw [gatherRows_spec (size ds) t.data I 0 out.data (by rw [hout, Nat.zero_add]) hrow]
+        simp
+      · simp [ho]
+    · simp [hall]
+
+/-- **gather into a provided owning output re-dimensions it**: whatever dims and contents the output had (more, fewer
+    or as many elements), the result is the tensor `indexed(indices)` returns -/
+theorem gather_into_eq_gather {α} (junk : α) (t out : T α) (I : List Nat) (hwf : t.wf) :
+    t.gatherInto junk I out = t.gather I := by
+  unfold T.gatherInto
+  cases hd : t.dims with
+  | nil => simp [T.gather, hd]
+  | cons d ds =>
+    simp only
+    rw [gather_into_map_eq_gather t _ I hwf (by unfold T.wf; simp only; exact resizeBuf_length _ _ _)]
+    simp [hd]
+
+theorem gather_into_dims {α} (junk : α) (t out s : T α) (I : List Nat) (hwf : t.wf)
+    (h : t.gatherInto junk I out = some s) : s.dims = I.length :: t.dims.drop 1 ∧ s.wf := by
+  rw [gather_into_eq_gather junk t out I hwf] at h
+  exact ⟨gather_dims t I s h, gather_wf t I s hwf h⟩
+
+/-- element `(j, q…)` of the re-used output is element `(I[j], q…)` of the tensor -/
+theorem gather_into_get {α} (junk : α) (t out s : T α) (I : List Nat) (j : Nat) (q : List Nat) (hwf : t.wf)
+    (h : t.gatherInto junk I out = some s) (hq : Valid s.dims (j :: q)) :
+    ∃ hj : j < I.length, s.get? (j :: q) = t.get? (I[j] :: q) := by
+  rw [gather_into_eq_gather junk t out I hwf] at h
+  exact gather_get t I s j q hwf h hq
+
+/-! ### integral with distinct input / output scalar types -/
+
+/-- **mixed-type summed-area table = prefix sums of the converted input**: with `conv` the conversion of an input
+    element to the output type (exact for every pair the property names, the output being at least as wide), the
+    table holds at `idx` the sum of the converted input over all `q ≤ idx` componentwise -/
+theorem integralX_eq_prefix_sums {β} (conv : β → Int) (t : T β) (f : List Nat → β) (hwf : t.wf)
+    (hf : ∀ q, Valid t.dims q → t.get? q = some (f q)) :
+    (t.integralX conv).dims = t.dims ∧ (t.integralX conv).wf ∧
+    ∀ idx, Valid t.dims idx → (t.integralX conv).get? idx = some (boxSum idx (fun q => conv (f q))) := by
+  unfold T.integralX
+  apply integral_eq_prefix_sums ⟨t.dims, t.data.map conv⟩ (fun q => conv (f q))
+  · unfold T.wf at *
+    simpa using hwf
+  · intro q hq
+    have := hf q hq
+    simp only [T.get?, hq, if_true] at this ⊢
+    rw [List.getElem?_map, this]
+    rfl
+
+/-- an integer inside the `w`-bit two's-complement range is not changed by wrapping -/
+theorem wrap_exact (w : Nat) (hw : 0 < w) (x : Int) (hlo : -(2 ^ (w - 1) : Int) ≤ x) (hhi : x < 2 ^ (w - 1)) :
+    (BitVec.ofInt w x).toInt = x := by
+  rw [BitVec.toInt_ofInt]
+  have hp : (2 : Int) ^ w = 2 * 2 ^ (w - 1) := by
+    have : w = (w - 1) + 1 := by omega
+    conv => lhs; rw [this, Int.pow_succ]
+    omega
+  apply Int.bmod_eq_of_le
+  · have : ((2 ^ w : Nat) : Int) = 2 * 2 ^ (w - 1) := by rw [← hp]; simp
+    rw [this]; omega
+  · have : ((2 ^ w : Nat) : Int) = 2 * 2 ^ (w - 1) := by rw [← hp]; simp
+    rw [this]; omega
+
+/-- **the table computed in `w`-bit two's-complement arithmetic** (an `int32_t` / `int64_t` output, sums that leave the
+    type wrap around) holds at `idx` the wrapped exact prefix sum — hence the exact prefix sum whenever that fits the
+    output type, even if sums formed on the way did not -/
+theorem integralWrapped_spec (w : Nat) (hw : 0 < w) (dims : List Nat) (xs : List Int) (f : List Nat → Int)
+    (hl : xs.length = size dims) (hf : ∀ q, Valid dims q → xs[index dims q]? = some (f q)) :
+    (integralWrapped w dims xs).length = size dims ∧
+    ∀ idx, Valid dims idx →
+      (integralWrapped w dims xs)[index dims idx]? = some (BitVec.ofInt w (boxSum idx f)).toInt ∧
+      (-(2 ^ (w - 1) : Int) ≤ boxSum idx f → boxSum idx f < 2 ^ (w - 1) →
+        (integralWrapped w dims xs)[index dims idx]? = some (boxSum idx f)) := by
+  obtain ⟨il, ig⟩ := integralData_spec dims xs f hl hf
+  have hh : integralWrapped w dims xs = ((integralData dims xs).map (BitVec.ofInt w)).map BitVec.toInt := by
+    unfold integralWrapped
+    rw [integralData_hom (BitVec.ofInt w) (fun a b => BitVec.ofInt_add a b)]
+  refine ⟨by rw [hh]; simp [il], ?_⟩
+  intro idx hv
+  have h1 : (integralWrapped w dims xs)[index dims idx]? = some (BitVec.ofInt w (boxSum idx f)).toInt := by
+    rw [hh, List.getElem?_map, List.getElem?_map, ig idx hv]
+    rfl
+  refine ⟨h1, ?_⟩
+  intro hlo hhi
+  rw [h1, wrap_exact w hw _ hlo hhi]
+
 /-! ### non-vacuity: the shape of the unit test, and a shape with a 0 and a 1 dimension -/
 
 example : Valid [3, 7, 5, 4] [2, 6, 4, 3] ∧ index [3, 7, 5, 4] [2, 6, 4, 3] = 419 ∧ size [3, 7, 5, 4] = 420 := by
@@ -755,5 +1179,20 @@ example : keptRows [false, true, false, true, false] [[0], [1], [2], [3], [4]] =
     ∧ keptIdx [false, true, false, true, false] 0 = [0, 2, 4] := by decide
 example : (T.removeIf ⟨[3, 2], [0, 1, 2, 3, 4, 5]⟩ [true, false, false]).map (fun p => (p.1, p.2.data))
     = some (2, [2, 3, 4, 5, 4, 5]) := by decide
+-- views: `t.slice(1, 3)` of a 4x2 tensor copied out (`t = t.slice(1, 3)`), a view of a view, a write through
+-- `t.tensor(1)`, a refused write (size mismatch), a gather into a re-used output of another size
+example : ((View.slice ⟨0, [4, 2]⟩ 1 3).map fun w => (w, (assignView [0, 1, 2, 3, 4, 5, 6, 7] w).dims,
+    (assignView [0, 1, 2, 3, 4, 5, 6, 7] w).data)) = some (⟨2, [2, 2]⟩, [2, 2], [2, 3, 4, 5]) := by decide
+example : ((View.reshape ⟨0, [8, 1]⟩ [2, -1, 2]).bind fun v => v.sub [1, 0]) = some ⟨4, [2]⟩ := by decide
+example : ((View.sub ⟨0, [2, 3]⟩ [1]).bind fun w => w.write [1, 2, 3, 4, 5, 6] [-1, -2, -3])
+    = some [1, 2, 3, -1, -2, -3] := by decide
+example : (View.mk 0 [2, 3]).write [1, 2, 3, 4, 5, 6] [-1] = none ∧ (View.mk 4 [3]).write [1, 2, 3, 4, 5, 6] [7, 8, 9] = none := by
+  decide
+example : ((T.gatherInto (-99) ⟨[4, 2], [0, 1, 2, 3, 4, 5, 6, 7]⟩ [3, 0, 3] ⟨[1, 1], [-7]⟩).map fun s => (s.dims, s.data))
+    = some ([3, 2], [6, 7, 0, 1, 6, 7]) := by decide
+-- mixed-type integral: an 8-bit unsigned image into integers; 8-bit two's-complement arithmetic wraps on the way
+-- (100 + 100) and is exact again where the prefix sum fits
+example : (T.integralX (fun x : Nat => Int.ofNat x) ⟨[2, 2], [200, 201, 202, 203]⟩).data = [200, 401, 402, 806] := by decide
+example : integralWrapped 8 [4] [100, 100, -100, -50] = [100, -56, 100, 50] := by decide
 
 end NanoVerif.Tensor
